@@ -514,13 +514,13 @@ func alphabet(sizes []int, mixes, orders []int) []bufSpec {
 }
 
 func run(c *lib.Ctx) {
-	full := alphabet([]int{0, 1, 12, 13, 24, 25, 26, 37, 60}, []int{0, 1, 2, 3}, lib.Pick(c, []int{0, 2}, []int{0, 1, 2}))
-	tri := alphabet(lib.Pick(c, []int{1, 13, 25, 37}, []int{0, 1, 13, 25, 26, 37}), []int{1, 2, 3}, []int{0})
+	full := alphabet([]int{13, 25, 1, 12, 24, 26, 37, 60, 0}, []int{0, 1, 2, 3}, lib.Pick(c, []int{0, 2}, []int{0, 1, 2}))
+	tri := alphabet(lib.Pick(c, []int{1, 13, 25, 37}, []int{13, 25, 1, 26, 37, 0}), []int{1, 2, 3}, []int{0})
 	quad := alphabet([]int{13, 26}, []int{2, 3}, []int{1})
-	// crossing goal(n) 24 -> 48 at 256 total entries needs bigger buffers:
-	// 2 * 60-key patterns x churn-free mixes on all-present lines reach ~240;
-	// use explicit large sizes in the thorough tier (spread pattern excluded
-	// by nKeys); here sizes stay below 256 in total, stated in the note.
+	// four buffers of 64 entries: the summed size reaches 256, where goal()
+	// switches from 24 to 48 slots per chunk (pass-through threshold 24)
+	big := alphabet([]int{64}, []int{2, 3}, []int{2})
+	c.Set("alphabet_big_quadruples", len(big))
 	c.Set("alphabet_pairs", len(full))
 	c.Set("alphabet_triples", len(tri))
 	c.Set("alphabet_quadruples", len(quad))
@@ -533,8 +533,10 @@ func run(c *lib.Ctx) {
 		c.Count("entries_removed_inside_a_buffer_by_add_then_delete", s.removed)
 	}
 	_ = total
-	do := func(lc listCase, st *stats, deep bool) {
+	do := func(lc listCase, st *stats, deep bool, fl *flight) {
+		fl.begin(func() (any, string) { return lc, lc.String() })
 		msg := runCase(lc, st, deep)
+		fl.end()
 		c.Eval(1)
 		ne := 0
 		for _, b := range lc.Bufs {
@@ -550,11 +552,14 @@ func run(c *lib.Ctx) {
 		}
 	}
 	// pairs: all ordered pairs x 3 presence lines
+	startWatchdog(c, "C11")
 	c.Par(len(full), func(i int) {
+		fl := newFlight()
+		defer fl.done()
 		var st stats
 		for p0 := 0; p0 < 3; p0++ {
 			for j := range full {
-				do(listCase{p0, []bufSpec{full[i], full[j]}}, &st, false)
+				do(listCase{p0, []bufSpec{full[i], full[j]}}, &st, false, fl)
 			}
 		}
 		add(st)
@@ -565,11 +570,13 @@ func run(c *lib.Ctx) {
 	// triples (flat and nested) x 2 presence lines
 	n := len(tri)
 	c.Par(n*n, func(ij int) {
+		fl := newFlight()
+		defer fl.done()
 		var st stats
 		i, j := ij/n, ij%n
 		for p0 := 0; p0 < 3; p0 += 2 {
 			for k := range tri {
-				do(listCase{p0, []bufSpec{tri[i], tri[j], tri[k]}}, &st, true)
+				do(listCase{p0, []bufSpec{tri[i], tri[j], tri[k]}}, &st, true, fl)
 			}
 		}
 		add(st)
@@ -580,10 +587,25 @@ func run(c *lib.Ctx) {
 	// quadruples
 	q := len(quad)
 	c.Par(q*q, func(ij int) {
+		fl := newFlight()
+		defer fl.done()
 		var st stats
 		for k := range quad {
 			for l := range quad {
-				do(listCase{2, []bufSpec{quad[ij/q], quad[ij%q], quad[k], quad[l]}}, &st, true)
+				do(listCase{2, []bufSpec{quad[ij/q], quad[ij%q], quad[k], quad[l]}}, &st, true, fl)
+			}
+		}
+		add(st)
+	})
+	// quadruples of 64-entry buffers (goal() = 48)
+	nb := len(big)
+	c.Par(nb*nb, func(ij int) {
+		fl := newFlight()
+		defer fl.done()
+		var st stats
+		for k := range big {
+			for l := range big {
+				do(listCase{ij % 3, []bufSpec{big[ij/nb], big[ij%nb], big[k], big[l]}}, &st, true, fl)
 			}
 		}
 		add(st)
@@ -611,7 +633,7 @@ func main() {
 		Assumptions: []string{
 			"oracle: presence-semantics fold over raw operations with unique offsets (independent of ixbuf.Combine)",
 			"only valid operation sequences are generated (add when absent, update/delete when present), as the overlay invariant requires",
-			"total entries per merge stay below 256, so goal() = 24 throughout (larger chunk-size classes are not reached)",
+			"chunk-size classes: goal() = 24 (summed size < 256) and 48 (four 64-entry buffers); the larger classes (>= 1024 entries) are not reached",
 			"merged results are not mutated afterwards (the database never does)",
 		},
 		QuickBudget:    70,
